@@ -248,6 +248,20 @@ theorem C14_silence_master_partial (c : PlayerVol) (muted : Nat → Bool) (chn r
 
 example : voiceVol ⟨4, 4, 0, 100⟩ (fun _ => false) 3 3 1024 = 0 := by decide
 
+/-- **Master volume 0 silences both halves of a split channel pair** (Oktalyzer): the volume a channel hands to its
+partner at the end of `process_volume` is the scaled one. -/
+theorem C14_silence_master_split (c : PlayerVol) (muted : Nat → Bool) (chn root pairRoot : Nat) (fv : Int)
+    (h0 : c.masterVol = 0) (hc : chn < c.modChn) : splitPairVol c muted chn root pairRoot fv = 0 := by
+  simp [splitPairVol, virtSetVol, masterStage, usesMaster, hc, h0]
+
+/-- … and in general the partner gets exactly what the channel itself gets, up to the partner's own mute -/
+theorem C14_split_pair_volume (c : PlayerVol) (muted : Nat → Bool) (chn root pairRoot : Nat) (fv : Int)
+    (hm : muted pairRoot = false) (hm' : muted root = false) :
+    splitPairVol c muted chn root pairRoot fv = voiceVol c muted chn root fv := by
+  simp [splitPairVol, voiceVol, virtSetVol, hm, hm']
+
+example : splitPairVol ⟨6, 6, 0, 100⟩ (fun _ => false) 0 0 1 1024 = 0 ∧ splitPairVol ⟨6, 6, 50, 100⟩ (fun _ => false) 0 0 1 1024 = 512 := by decide
+
 /-- The full statement: master volume 0 silences every voice of the module — those on module
 channels and the background (NNA) voices whose root is a module channel. -/
 def SilenceMasterFull : Prop :=
@@ -699,6 +713,59 @@ theorem C14_kernel_refines (k : KSpec) (v : KVoice) (a : KArgs) :
     induction fr with
     | nil => rfl
     | cons p r ih => obtain ⟨l, r'⟩ := p; simp [interleave, ih]
+
+theorem bgLoop_spec (maps : List Int) (chn : Nat) (h : ∃ m ∈ maps, m ≤ voiceFree) :
+    chn < bgLoop maps chn ∧ bgLoop maps chn ≤ chn + maps.length ∧ maps.getD (bgLoop maps chn - 1 - chn) 0 ≤ voiceFree := by
+  induction maps generalizing chn with
+  | nil => obtain ⟨m, hm, _⟩ := h; cases hm
+  | cons m r ih =>
+    unfold bgLoop
+    by_cases hm : m > voiceFree
+    · simp only [hm, if_true]
+      have h' : ∃ x ∈ r, x ≤ voiceFree := by
+        obtain ⟨x, hx, hle⟩ := h
+        rcases List.mem_cons.mp hx with rfl | hx
+        · omega
+        · exact ⟨x, hx, hle⟩
+      obtain ⟨a, b, c⟩ := ih (chn + 1) h'
+      refine ⟨by omega, by simp only [List.length_cons]; omega, ?_⟩
+      have e : bgLoop r (chn + 1) - 1 - chn = (bgLoop r (chn + 1) - 1 - (chn + 1)) + 1 := by omega
+      rw [e, List.getD_cons_succ]
+      exact c
+    · simp only [hm, if_false]
+      refine ⟨by omega, by simp only [List.length_cons]; omega, ?_⟩
+      have e : chn + 1 - 1 - chn = 0 := by omega
+      rw [e]
+      simp only [List.getD_cons_zero]
+      omega
+
+/-- **The background channel chosen for a displaced voice is free** whenever a free one exists among the
+`virt_channels - num_tracks` background channels — and one always exists: their number equals the number of voices
+(`maxvoc`), the voice just allocated for the new note and the displaced voice itself (still mapped on its pattern
+channel) are not on background channels, so at most `maxvoc - 2` of them are occupied (`hocc`).  An occupied channel
+is therefore never handed out again: no voice is orphaned, every sounding voice stays driven (and mutable) by a
+channel — the hypothesis under which the superposition oracle compares full and solo renders below the voice limit. -/
+theorem C14_bg_channel_free (maps : List Int) (hocc : (maps.filter (· > voiceFree)).length < maps.length) :
+    0 ≤ bgSearch maps ∧ bgSearch maps < maps.length ∧ maps.getD (bgSearch maps).toNat 0 ≤ voiceFree := by
+  have h : ∃ m ∈ maps, m ≤ voiceFree := by
+    apply Classical.byContradiction
+    intro hn
+    have hall : ∀ m ∈ maps, decide (m > voiceFree) = true := by
+      intro m hm
+      have : ¬ m ≤ voiceFree := fun hle => hn ⟨m, hm, hle⟩
+      simp; omega
+    rw [List.filter_eq_self.mpr hall] at hocc
+    omega
+  obtain ⟨a, b, c⟩ := bgLoop_spec maps 0 h
+  unfold bgSearch
+  refine ⟨by omega, by omega, ?_⟩
+  have e : ((bgLoop maps 0 : Int) - 1).toNat = bgLoop maps 0 - 1 - 0 := by omega
+  rw [e]
+  exact c
+
+/-- the search bounded by fewer channels than there are (the seeded C14-m11: `maxvoc` instead of `virt_channels`)
+hands out an occupied channel although a free one exists -/
+example : bgSearch [5, 3, 7, -1] = 3 ∧ bgSearch ([5, 3, 7, -1].take 2) = 1 ∧ ([5, 3, 7, -1] : List Int).getD 1 0 > voiceFree := by decide
 
 /-- **A freed voice is cleared in every member the kernels and the voice loop read**: over the member list
 generated from src/mixer.h, every member a kernel reads (`kernelReads`) and every per-voice memory the voice loop
